@@ -143,7 +143,8 @@ func (e *env) awaitTable(mark int, uid uint32) bool {
 // warm sends probe requests until one is answered: after an upstream close the pool reconnects asynchronously
 // and fails requests meanwhile.
 func (e *env) warm(cl *xc02.Client, name string) bool {
-	for i := 0; i < 200; i++ {
+	l0 := atomic.LoadInt64(&lost)
+	for i := 0; i < 200 && atomic.LoadInt64(&lost)-l0 < 8; i++ {
 		e.probes++
 		tok := fmt.Sprintf("p%s-%d", name, e.probes)
 		q := &rq{tok: tok, dsid: e.freshID(), cl: cl}
@@ -174,7 +175,7 @@ func (e *env) runHop(name string, c hcase) map[string]interface{} {
 		return conns[i]
 	}
 	reqs := map[int]*rq{}
-	collisions, diverged := 0, 0
+	collisions, diverged, races := 0, 0, 0
 	for _, s := range c.Steps {
 		switch s.Op {
 		case "send":
@@ -221,6 +222,40 @@ func (e *env) runHop(name string, c hcase) map[string]interface{} {
 			if e.up.Reply(uc, max+7, name+"-ghost", "ghost") {
 				e.awaitTable(mark, max+7)
 			}
+		case "race":
+			// the upstream's answer to r is looked up by the proxy and its handler is held (gate us.recv.guard) until r's
+			// timeout has ended the request; meanwhile new requests start; then the handler resumes
+			q := reqs[s.R]
+			if q == nil || q.arr == nil || q.epoch != e.epoch || q.poll() {
+				diverged++
+				continue
+			}
+			e.sched.Hold("us.recv.guard")
+			if !e.up.Reply(q.arr.Conn, q.arr.UID, q.tok, "ans") || !e.sched.AwaitArrive("us.recv.guard", e.w(0)) {
+				e.sched.Release("us.recv.guard")
+				diverged++
+				continue
+			}
+			q.wait(e.w(shortMs * time.Millisecond))
+			fcl := e.dial()
+			fill := []*rq{}
+			for i := 0; i < 4; i++ {
+				f := &rq{tok: fmt.Sprintf("%s-f%d", name, i), cl: fcl, dsid: e.freshID(), epoch: e.epoch}
+				f.ch = fcl.Send(f.dsid, f.tok, "hold", longMs, false, false)
+				f.arr = e.up.WaitArrival(f.tok, e.w(0), f.poll)
+				fill = append(fill, f)
+			}
+			e.sched.Release("us.recv.guard")
+			for _, f := range fill {
+				if f.arr != nil && !f.poll() {
+					e.up.Reply(f.arr.Conn, f.arr.UID, f.tok, "ans")
+				}
+			}
+			for _, f := range fill {
+				f.wait(e.w(0))
+			}
+			fcl.Close()
+			races++
 		case "tmo":
 			if q := reqs[s.R]; q != nil {
 				q.wait(e.w(shortMs * time.Millisecond))
@@ -256,7 +291,7 @@ func (e *env) runHop(name string, c hcase) map[string]interface{} {
 	}
 	time.Sleep(15 * time.Millisecond) // frames that must not come
 	e.tr.Emit(vh.Ev{"ev": "quiesce"})
-	return map[string]interface{}{"name": name, "collisions": collisions, "diverged": diverged, "lost": atomic.LoadInt64(&lost) - e.lost0}
+	return map[string]interface{}{"name": name, "collisions": collisions, "diverged": diverged, "races": races, "lost": atomic.LoadInt64(&lost) - e.lost0}
 }
 
 // runStorm: concurrent pipelined clients on shared downstream connections.
@@ -406,11 +441,15 @@ func main() {
 	// the first request makes the pool connect (it fails while the pool connects): warm up outside any run
 	tr.Emit(vh.Ev{"ev": "run", "name": fmt.Sprintf("warm%d", *shard), "mode": "warm"})
 	cl := e.dial()
-	if !e.warm(cl, fmt.Sprintf("w%d", *shard)) {
-		vh.Must(fmt.Errorf("no request got through the proxy"), "warm-up")
-	}
+	warmOK := e.warm(cl, fmt.Sprintf("w%d", *shard))
 	cl.Close()
 	tr.Emit(vh.Ev{"ev": "quiesce"})
+	if !warmOK {
+		// nothing gets through the proxy: the recorded warm-up (requests sent, frames received) is all there is to judge
+		rs.Put(map[string]interface{}{"summary": true, "runs": 0, "skipped": 0, "lost": atomic.LoadInt64(&lost), "warm_failed": true})
+		fmt.Printf("c02 %s: warm-up failed, no request got through the proxy\n", *mode)
+		return
+	}
 	n, skipped := 0, 0
 	switch *mode {
 	case "hop":
